@@ -17,6 +17,7 @@ Every column obligation is split (as for C03) into
   normalisation:  the per-vector value is raw/(T sqrt(N_a N_b)) for any value of raw (ring normal form);
   rounded:        the value that enters the |q|-average is round6 of that per-vector value;
   group-mean:     the returned column is the mean of those rounded values over the vectors with the row's key.
+Default wave-vector set (choosewavevector, symbolic numofq): see ChooseWaveVectorSym / LexEnum below.
 """
 import z3
 
@@ -34,12 +35,11 @@ NOT_DECIDED = [
     "which wave vectors share a rounded |q| for incommensurate box edges (the 1e-6 rounding is the uninterpreted round6 of the pandas contract)",
     "floating-point accuracy of exp/cos/sin and of the accumulated sums (A1: floats are reals)",
     "group means: non-emptiness of every returned group is part of the assumed groupby contract",
-    "default wave-vector set (choosewavevector) for all numofq: only a bounded run (numofq <= 12 in 2D, <= 6 in 3D) — the compaction "
-    "loop `qvectors[index] = ...; index += 1` needs a written invariant with ghost rank arrays",
-    "sum rule N S = sum_a N_a S_aa + 2 sum_{a<b} sqrt(N_a N_b) S_ab on the returned (rounded, |q|-averaged) numbers: proved only as the "
-    "per-frame identity and induction-step lemmas on the spec terms (holds before rounding by the modes+normalisation clauses)",
-    "sign of the group mean of the diagonal columns (needs 'sum of non-negative terms' over a symbolic group): proved per vector, "
-    "the induction step is a lemma",
+    "default wave-vector set: the float test `modf(sqrt(k))[0] == 0` is taken as 'k is a perfect square' (exact for k < 2**52; assumed, see "
+    "TRUSTED); onlypositive='z' with ndim=2 and non-bool/str options are not specified by the documentation and not checked",
+    "sum rule as an exact equality on the returned table: false in general (every per-vector value is rounded to 1e-6 before the |q|-average); "
+    "proved instead: exact for the unrounded per-vector values (sum-rule:*), and |N S - sum_a N_a S_aa - 2 sum_{a<b} sqrt(N_a N_b) S_ab| <= "
+    "(N + sum_{a<b} sqrt(N_a N_b)) 1e-6 on every row of the returned table (sum-rule:rounded:*)",
     "AssertionError of sq.__init__ when particle number or box change between frames (the symbolic trajectory has them constant)",
 ]
 TRUSTED = [
@@ -47,11 +47,26 @@ TRUSTED = [
     "join, round(6) = element-wise round6, groupby(key).mean().reset_index() = one row per distinct key with the group mean of every other "
     "column (every group non-empty), to_csv = write event",
     "exp(-i x) = cos x - i sin x with the parity normal forms cos(-x) = cos x, sin(-x) = -sin x (pyvc/sv.py), np.linalg.norm, math.sqrt",
-    "Sigma unfold/extensionality axioms (pyvc/axioms.py); induction over the frame / particle number for the sum-rule and sign lemmas "
-    "is by explicit base and step obligations",
+    "Sigma unfold/extensionality axioms (pyvc/axioms.py); induction over the frame / particle number for the sum-rule and sign clauses "
+    "is by explicit step obligations on the real terms (base: empty sums), the induction principle itself is trusted; the ring normaliser "
+    "applies the conclusions (rho = sum_a rho_a, raw_S = sum raw_aa + 2 sum raw_ab) as rewrites",
     "loop rule of pyvc/loops.py: joined body branches (if/elif routing by type) and numeric accumulators promoted to arrays by the first "
     "iteration are summarised as sums, checked by loop-init (after the first iteration) and loop-step obligations",
     "the object invariant established by sq.__init__ (own unit) is the methods' precondition",
+    "sign of the returned diagonal / total columns: proved as induction-step obligations on the real terms (frames: raw_k >= 0 -> raw_{k+1} >= 0; "
+    "vectors of a group: num_k >= 0, rv_k >= 0 -> num_{k+1} >= 0) and the final step mean = num/den >= 0; trusted: the induction principle "
+    "over k, and den >= 1 (every key returned by groupby().mean() is the key of at least one row: part of the assumed groupby contract)",
+    "choosewavevector: math.modf(math.sqrt(k))[0] == 0  <=>  PSQ(k) ('k is a perfect square') for an integer k >= 0 (pyvc/libext/C04.py; a theorem "
+    "over the reals, for floats the assumption that the correctly rounded root of a non-square below 2**52 is not an integer)",
+    "choosewavevector: the ghost enumeration S of the finite set D = {p in [-h,h)^d : PSQ(p.p)} in lexicographic order with its inverse "
+    "rank(p) = number of members of D before p (closed form, nested counting sums): facts (a) S(r) in D and rank(S(r)) = r for r < |D|, "
+    "(b) rank(p) < |D| and S(rank(p)) = p for p in D, (c) S strictly increasing (contracts/C04.py: LexEnum) — the d-dimensional form of the "
+    "engine's boolean-mask selection contract SEL/RANK (pyvc/relops.py).  (a)-(c) are derived from the closed form of rank by the lemma "
+    "obligations cwv:enum:* (base / step per axis: partial sums non-negative and monotone, rank monotone and strict at members, every rank "
+    "below |D| attained by a member; then (a), (b), (c) by pure logic); trusted: induction over one axis coordinate, choice of the witness "
+    "function S, and that the unit's facts are instances of the lemmas' conclusions",
+    "choosewavevector: the boolean-mask selections after the loops use the assumed numpy contract of a[mask] (pyvc/relops.py: SEL/RANK, "
+    "increasing); the induction principle over one axis for the count-bound lemmas (|D| <= numofq^d: base and step obligations per axis)",
 ]
 
 
@@ -196,14 +211,28 @@ class Method(Unit):
         inp["g"] = ctx.int("g")
         inp["m"] = ctx.int("m")
         inp["s0"] = ctx.int("s0")
+        inp["kf"] = ctx.int("kf")
+        inp["kv"] = ctx.int("kv")
+        inp["kp"] = ctx.int("kp")
         return [o], {}, inp
+
+    SUMRULE = ["sum-rule:rho=sum_a-rho_a:induction-step(particles)", "sum-rule:per-frame-identity", "sum-rule:raw:induction-step(frames)",
+               "sum-rule:per-vector-values(unrounded)"]
+
+    SUMRULE_ROUNDED = ["sum-rule:rounded:per-vector-defect<=bound", "sum-rule:rounded:group:induction-step(vectors)",
+                       "sum-rule:rounded:group:linearity:unfold", "sum-rule:rounded:group:linearity:step(member)",
+                       "sum-rule:rounded:group:linearity:step(non-member)", "sum-rule:rounded:returned-table:mean-of-combination",
+                       "sum-rule:rounded:returned-table:|N.S-sum_a.N_a.S_aa-2.sum_ab.sqrt(N_a.N_b).S_ab|<=(N+sum_ab.sqrt(N_a.N_b)).1e-6"]
 
     def clause_names(self, case):
         names = ["columns", "q:key=round6|2pi n/L|", "q:returned=key", "file=returned", "qvectors-file=per-vector-values"]
         for name, ab in columns(self.K):
             names += [f"{name}:modes", f"{name}:normalisation", f"{name}:rounded", f"{name}:group-mean"]
             if ab is None or ab[0] == ab[1]:
-                names.append(f"{name}:per-vector-value>=0")
+                names += [f"{name}:per-vector-value>=0", f"{name}:raw>=0:induction-step(frames)", f"{name}:returned>=0:induction-step(vectors)",
+                          f"{name}:returned>=0"]
+        if self.K >= 2:
+            names += self.SUMRULE + self.SUMRULE_ROUNDED
         return names
 
     def ensures(self, ctx, case, inp, out):
@@ -226,7 +255,7 @@ class Method(Unit):
         ing = sv.and_(sv.cmp(">=", g, 0), sv.cmp("<", g, G))
         yield "q:key=round6|2pi n/L|", sv.implies(inm, sv.cmp("==", keys((m,)), sv.round_dec(sp.qnorm(m), 6))), {"ring_only": True}
         yield "q:returned=key", sv.implies(ing, sv.cmp("==", c["q"].get((g,)), Kf(g))), {"ring_only": True}
-        pervec = {}
+        pervec, nums, den_g = {}, {}, None
         for name, ab in cols:
             rv = gb["values"][name]((m,))
             t = sv.zr(rv)
@@ -254,6 +283,16 @@ class Method(Unit):
             num = Sum(0, M, lambda t_: sv.ite(sv.cmp("==", keys((t_,)), kg), gb["values"][name]((t_,)), 0))
             den = Sum(0, M, lambda t_: sv.ite(sv.cmp("==", keys((t_,)), kg), 1, 0))
             yield f"{name}:group-mean", sv.implies(ing, sv.cmp("==", c[name].get((g,)), sv.div(num, den))), {"ring_only": True}
+            nums[name], den_g = num, den
+            if ab is None or ab[0] == ab[1]:
+                yield from self.sign_goals(inp, name, ab, gb, kg, num, den, c[name].get((g,)), ing, inm)
+        if K >= 2:
+            if all(nm in pervec for nm, _ in cols):
+                yield from self.sumrule_goals(inp, cols, pervec, inm)
+                yield from self.sumrule_rounded_goals(inp, cols, pervec, gb, c, Kf(g), ing, inm, nums, den_g)
+            else:
+                for nm in self.SUMRULE + self.SUMRULE_ROUNDED:
+                    yield nm, False
         # files
         writes = [e for e in out.state.trace if e[0] == "to_csv"]
         wq = [e for e in writes if e[1] == "out_qvectors.csv"]
@@ -280,6 +319,139 @@ class Method(Unit):
                 yield "qvectors-file=per-vector-values", sv.implies(inm, sv.and_(*eqs)), {"ring_only": True}
             else:
                 yield "qvectors-file=per-vector-values", False
+
+    def sign_goals(self, inp, name, ab, gb, kg, num, den, returned, ing, inm):
+        """diagonal and total columns are non-negative ON THE RETURNED NUMBERS, by two inductions stated as obligations on the real terms:
+        (1) frames: raw_k(m) = sum_{s<k} |rho_a(s,m)|^2 >= 0  -- base raw_0 = 0 (empty sum), step raw_k >= 0 -> raw_{k+1} >= 0; with the
+            modes clause (the code's sum is raw_T(m)) and the per-vector clause (raw >= 0 -> round6(v) >= 0) every value that enters
+            the |q|-average is >= 0;
+        (2) vectors: num_k = sum_{t<k} [key_t = key_g] rv_t >= 0  -- base num_0 = 0, step num_k >= 0, rv_k >= 0 -> num_{k+1} >= 0;
+        (3) the returned mean num_M / den is >= 0 for den >= 1 (every returned group has a member: assumed groupby contract).
+        The induction principle over k is trusted (TRUSTED)."""
+        sp, m, T, M, kf, kv = inp["sp"], inp["m"], inp["T"], inp["M"], inp["kf"], inp["kv"]
+        keys, vals = gb["keys"], gb["values"][name]
+        rk, rk1 = sp.raw(ab, m, t=kf), sp.raw(ab, m, t=sv.add(kf, 1))
+        yield f"{name}:raw>=0:induction-step(frames)", \
+            sv.implies(sv.and_(inm, sv.cmp(">=", kf, 0), sv.cmp("<", kf, T), sv.cmp(">=", rk, 0)), sv.cmp(">=", rk1, 0)), {"solver_opts": {"ext": False}}
+
+        def numk(k):
+            return Sum(0, k, lambda t_: sv.ite(sv.cmp("==", keys((t_,)), kg), vals((t_,)), 0))
+        yield f"{name}:returned>=0:induction-step(vectors)", \
+            sv.implies(sv.and_(ing, sv.cmp(">=", kv, 0), sv.cmp("<", kv, M), sv.cmp(">=", numk(kv), 0), sv.cmp(">=", vals((kv,)), 0)),
+                       sv.cmp(">=", numk(sv.add(kv, 1)), 0)), {"solver_opts": {"ext": False}}
+        gm, _ = sv.generalize(sv.implies(sv.and_(ing, sv.cmp(">=", num, 0), sv.cmp(">=", den, 1)), sv.cmp(">=", returned, 0)), [num, den], "nd")
+        yield f"{name}:returned>=0", gm
+
+    def sumrule_goals(self, inp, cols, pervec, inm):
+        """N S = sum_a N_a S_aa + 2 sum_{a<b} sqrt(N_a N_b) S_ab on the UNROUNDED per-vector values the code computes (the values written,
+        formatted %.6f, to `_qvectors.csv`), chained to the code's own terms:
+        (A) rho(s,m) = sum_a rho_a(s,m) by induction over the particles (step obligation; base: empty sums; a particle of type t in 1..K
+            contributes to exactly one species mode);
+        (B) per frame |rho|^2 = sum_a |rho_a|^2 + 2 sum_{a<b} Re[rho_a conj rho_b]  (ring identity after rewriting rho by (A));
+        (C) raw_S = sum_a raw_aa + 2 sum_{a<b} raw_ab by induction over the frames (step obligation with (B) at the new frame);
+        (D) with the modes clauses (the code's sums are the raw_X) and the code's normalisations: the sum rule on the per-vector values
+            (ring identity after rewriting the code's total sum by (C)).
+        The induction principle over the particle / frame number is trusted."""
+        sp, m, T, N, K, s0, kf, kp = inp["sp"], inp["m"], inp["T"], inp["N"], self.K, inp["s0"], inp["kf"], inp["kp"]
+        ins = sv.and_(inm, sv.cmp(">=", s0, 0), sv.cmp("<", s0, T))
+        sp_ab = [(a, a) for a in range(1, K + 1)] + [(a, b) for a in range(1, K + 1) for b in range(a + 1, K + 1)]
+        w = lambda ab: 1 if ab[0] == ab[1] else 2
+
+        def split(n):
+            tot = sp.rho(None, s0, m, n=n)
+            parts = [sp.rho(a, s0, m, n=n) for a in range(1, K + 1)]
+            return sv.and_(sv.cmp("==", tot.re, _sum([p_.re for p_ in parts])), sv.cmp("==", tot.im, _sum([p_.im for p_ in parts])))
+        yield self.SUMRULE[0], sv.implies(sv.and_(ins, sv.cmp(">=", kp, 0), sv.cmp("<", kp, N), split(kp)), split(sv.add(kp, 1))), \
+            {"solver_opts": {"ext": False}}
+        tot = sp.rho(None, s0, m)
+        parts = [sp.rho(a, s0, m) for a in range(1, K + 1)]
+        ident = sv.cmp("==", sp.frame_term(None, s0, m), _sum([sv.mul(w(ab), sp.frame_term(ab, s0, m)) for ab in sp_ab]))
+        yield self.SUMRULE[1], sv.implies(ins, ident), {"ring_only": True, "rewrites": [(tot.re, _sum([p_.re for p_ in parts])), (tot.im, _sum([p_.im for p_ in parts]))]}
+
+        def D(k):
+            return sv.sub(sp.raw(None, m, t=k), _sum([sv.mul(w(ab), sp.raw(ab, m, t=k)) for ab in sp_ab]))
+        h2 = sv.cmp("==", sp.frame_term(None, kf, m), _sum([sv.mul(w(ab), sp.frame_term(ab, kf, m)) for ab in sp_ab]))
+        yield self.SUMRULE[2], sv.implies(sv.and_(inm, sv.cmp(">=", kf, 0), sv.cmp("<", kf, T), sv.cmp("==", D(kf), 0), h2), sv.cmp("==", D(sv.add(kf, 1)), 0)), \
+            {"solver_opts": {"ext": False}, "abstract_nl": True}
+        name_of = {ab: nm for nm, ab in cols}
+        rawS = pervec[name_of[None]][1]
+        rw = [(rawS, _sum([sv.mul(w(ab), pervec[name_of[ab]][1]) for ab in sp_ab]))]
+        yield self.SUMRULE[3], sv.implies(inm, sv.cmp("==", self._comb(inp, lambda X: pervec[name_of[X]][0]), 0)), {"ring_only": True, "rewrites": rw}
+
+    def _coef(self, inp):
+        """columns X in the order total, diagonal, off-diagonal with sign and coefficient: + N, - N_a, - 2 sqrt(N_a N_b)"""
+        sp, K = inp["sp"], self.K
+        out = [(None, 1, inp["N"])]
+        out += [((a, a), -1, inp["Na"][a - 1]) for a in range(1, K + 1)]
+        out += [((a, b), -1, sv.mul(2, sp.norm((a, b)))) for a in range(1, K + 1) for b in range(a + 1, K + 1)]
+        return out
+
+    def _comb(self, inp, f):
+        """N f(S) - sum_a N_a f(S_aa) - 2 sum_{a<b} sqrt(N_a N_b) f(S_ab)"""
+        return _sum([sv.mul(sg, sv.mul(cf, f(X))) for X, sg, cf in self._coef(inp)])
+
+    def sumrule_rounded_goals(self, inp, cols, pervec, gb, c, kg, ing, inm, nums, den):
+        """the sum rule ON THE RETURNED TABLE, up to the rounding of the per-vector values: with eps = 1/2 1e-6,
+        B = (N + sum_a N_a + 2 sum_{a<b} sqrt(N_a N_b)) eps = (N + sum_{a<b} sqrt(N_a N_b)) 1e-6  and
+        Delta(t) = N rv_S(t) - sum_a N_a rv_aa(t) - 2 sum_{a<b} sqrt(N_a N_b) rv_ab(t)  (rv = the rounded per-vector values):
+        (R1) |Delta(m)| <= B at every vector (exact sum rule of the unrounded values, |rv - v| <= eps, scaled by the coefficients >= 0);
+        (R2) U_k = sum_{t<k} [key_t = key_g] Delta(t),  BD_k = sum_{t<k} [key_t = key_g] B:  |U_k| <= BD_k -> |U_{k+1}| <= BD_{k+1};
+        (R3) U_k = N num_S,k - sum_a N_a num_aa,k - ...  and BD_k = B den_k  (linearity of the group sums): unfold + ring steps for a member /
+             a non-member of the group;
+        (R4) the returned means c_X = num_X / den:  N c_S - ... = (N num_S - ...)/den (ring), hence |N c_S - ...| <= B for den >= 1.
+        Induction principle over k trusted; den >= 1 is part of the assumed groupby contract."""
+        from fractions import Fraction
+        sp, m, M, kv = inp["sp"], inp["m"], inp["M"], inp["kv"]
+        names = self.SUMRULE_ROUNDED
+        name_of = {ab: nm for nm, ab in cols}
+        coef = self._coef(inp)
+        EPS = Fraction(1, 2000000)
+        B = sv.mul(_sum([cf for _, _, cf in coef]), EPS)
+        keys = gb["keys"]
+        rv = lambda X, t: gb["values"][name_of[X]]((t,))
+        v = lambda X: pervec[name_of[X]][0]
+        delta = lambda t: self._comb(inp, lambda X: rv(X, t))
+        absle = lambda x, y: sv.and_(sv.cmp("<=", x, y), sv.cmp("<=", sv.neg(y), x))
+        so = {"solver_opts": {"ext": False}, "abstract_nl": True}
+        # (R1)
+        exact = sv.cmp("==", self._comb(inp, v), 0)                       # clause sum-rule:per-vector-values(unrounded)
+        scaled = [sv.implies(sv.and_(sv.cmp(">=", cf, 0), absle(sv.sub(rv(X, m), v(X)), EPS)),
+                             absle(sv.sub(sv.mul(cf, rv(X, m)), sv.mul(cf, v(X))), sv.mul(cf, EPS))) for X, _, cf in coef]    # lemma:scaled-rounding-error
+        yield names[0], sv.implies(inm, absle(delta(m), B)), dict(so, assume=[sv.implies(inm, exact)] + scaled)
+        # (R2)
+        member = lambda t: sv.cmp("==", keys((t,)), kg)
+        U = lambda k: Sum(0, k, lambda t_: sv.ite(member(t_), delta(t_), 0))
+        BD = lambda k: Sum(0, k, lambda t_: sv.ite(member(t_), B, 0))
+        numk = lambda X, k: Sum(0, k, lambda t_: sv.ite(member(t_), rv(X, t_), 0))
+        denk = lambda k: Sum(0, k, lambda t_: sv.ite(member(t_), 1, 0))
+        ink = sv.and_(ing, sv.cmp(">=", kv, 0), sv.cmp("<", kv, M))
+        k1 = sv.add(kv, 1)
+        yield names[1], sv.implies(sv.and_(ink, absle(U(kv), BD(kv)), absle(delta(kv), B)), absle(U(k1), BD(k1))), so
+        # (R3)
+        xs = [X for X, _, _ in coef]
+        grow = [sv.cmp("==", numk(X, k1), sv.add(numk(X, kv), rv(X, kv))) for X in xs] + \
+               [sv.cmp("==", denk(k1), sv.add(denk(kv), 1)), sv.cmp("==", U(k1), sv.add(U(kv), delta(kv))), sv.cmp("==", BD(k1), sv.add(BD(kv), B))]
+        stay = [sv.cmp("==", numk(X, k1), numk(X, kv)) for X in xs] + \
+               [sv.cmp("==", denk(k1), denk(kv)), sv.cmp("==", U(k1), U(kv)), sv.cmp("==", BD(k1), BD(kv))]
+        yield names[2], sv.implies(ink, sv.and_(sv.implies(member(kv), sv.and_(*grow)), sv.implies(sv.not_(member(kv)), sv.and_(*stay)))), so
+        Lk = lambda k: sv.and_(sv.cmp("==", U(k), self._comb(inp, lambda X: numk(X, k))), sv.cmp("==", BD(k), sv.mul(B, denk(k))))
+        ih = [(U(kv), self._comb(inp, lambda X: numk(X, kv))), (BD(kv), sv.mul(B, denk(kv)))]
+        rw_grow = [(numk(X, k1), sv.add(numk(X, kv), rv(X, kv))) for X in xs] + \
+                  [(denk(k1), sv.add(denk(kv), 1)), (U(k1), sv.add(U(kv), delta(kv))), (BD(k1), sv.add(BD(kv), B))]
+        rw_stay = [(numk(X, k1), numk(X, kv)) for X in xs] + [(denk(k1), denk(kv)), (U(k1), U(kv)), (BD(k1), BD(kv))]
+        yield names[3], Lk(k1), {"ring_only": True, "rewrites": rw_grow + ih}
+        yield names[4], Lk(k1), {"ring_only": True, "rewrites": rw_stay + ih}
+        # (R4)
+        g = inp["g"]
+        ret = lambda X: c[name_of[X]].get((g,))
+        u = self._comb(inp, lambda X: nums[name_of[X]])
+        mean_eq = sv.cmp("==", self._comb(inp, ret), sv.div(u, den))
+        yield names[5], sv.implies(ing, mean_eq), {"ring_only": True}
+        UM, BDM = Sum(0, M, lambda t_: sv.ite(member(t_), delta(t_), 0)), Sum(0, M, lambda t_: sv.ite(member(t_), B, 0))
+        hyps = [absle(UM, BDM), sv.cmp("==", UM, u), sv.cmp("==", BDM, sv.mul(B, den)), sv.cmp(">=", den, 1)]      # (R2), (R3) at k = M; groupby
+        quot = sv.implies(sv.and_(absle(u, sv.mul(B, den)), sv.cmp(">=", den, 1)), absle(sv.div(u, den), B))          # lemma:|u|<=B.d,d>=1=>|u/d|<=B
+        gq, _ = sv.generalize(sv.implies(sv.and_(ing, mean_eq, quot, *hyps), absle(self._comb(inp, ret), B)), [sv.div(u, den), u, den, UM, BDM, B], "q")
+        yield names[6], gq, so
 
     def modes_goals(self, inp, ab, raw):
         """raw (the Σ over frames accumulated by the code, at vector m) == sum_s Re[rho_a conj rho_b], in three small steps:
@@ -468,6 +640,25 @@ def _replay_sq(K, d, clause, model, seed, nspecies=None, outfile=False, saveq=Fa
                     return {"ran": True, "failed": True, "searched": tried, "inputs": inputs,
                             "detail": f"column {name}, row {kb} (|q| = {keys[kb]}): got {got[kb]!r}, expected {want[name][kb]!r} "
                                       "(mean over equal |q| of round6(frame average of Re[rho_a conj rho_b]/sqrt(N_a N_b)))"}
+            # diagonal and total columns are non-negative; sum rule within the rounding of the per-vector values (1e-6 each)
+            Ncnt = {a: int((tyf[0] == a).sum()) for a in range(1, K + 1)}
+            wsum = float(N) + sum(Ncnt.values()) + 2 * sum(np.sqrt(Ncnt[a] * Ncnt[b]) for a in range(1, K + 1) for b in range(a + 1, K + 1))
+
+            def sumrule_defect(tab):
+                rhs = sum(Ncnt[a] * tab[f"Sq{a}{a}"] for a in range(1, K + 1)) + \
+                    2 * sum(np.sqrt(Ncnt[a] * Ncnt[b]) * tab[f"Sq{a}{b}"] for a in range(1, K + 1) for b in range(a + 1, K + 1))
+                return np.abs(N * tab["Sq"] - rhs)
+            for name, ab in columns(K):
+                if (ab is None or ab[0] == ab[1]) and not (res[name].values >= 0).all():
+                    return {"ran": True, "failed": True, "searched": tried, "inputs": inputs, "detail": f"column {name} of the returned table has a negative entry"}
+            if K >= 2 and nspecies == K:
+                dfc = sumrule_defect({c: res[c].values for c in res.columns})
+                if (dfc > wsum * 0.5e-6 * (1 + 1e-6) + 1e-9).any():
+                    return {"ran": True, "failed": True, "searched": tried, "inputs": inputs,
+                            "detail": f"sum rule N S = sum N_a S_aa + 2 sum sqrt(N_a N_b) S_ab violated beyond the rounding bound on the returned table: defect {dfc.max()!r}"}
+                dfp = sumrule_defect(per)
+                if (dfp > 1e-9 * wsum).any():
+                    return {"ran": True, "failed": True, "searched": tried, "inputs": inputs, "detail": "sum rule violated by the independent per-vector values (harness error)"}
             if outfile:
                 import pandas as pd
                 back = pd.read_csv(of)
@@ -481,6 +672,8 @@ def _replay_sq(K, d, clause, model, seed, nspecies=None, outfile=False, saveq=Fa
                         and all(np.allclose(bq[nm].values, per[nm], rtol=0, atol=1e-6) for nm, _ in columns(K))
                     if not okq:
                         return {"ran": True, "failed": True, "inputs": inputs, "detail": "_qvectors.csv is not the table of per-vector values"}
+                    if K >= 2 and nspecies == K and (sumrule_defect({c: bq[c].values for c in bq.columns}) > wsum * 0.5e-6 * (1 + 1e-6) + 1e-9).any():
+                        return {"ran": True, "failed": True, "inputs": inputs, "detail": "sum rule violated by the per-vector values of _qvectors.csv (beyond the %.6f format)"}
                 elif os.path.exists(qf):
                     return {"ran": True, "failed": True, "inputs": inputs, "detail": "_qvectors.csv written although saveqvectors is False"}
     finally:
@@ -519,7 +712,7 @@ class Dispatch(Unit):
 
 def _cwv_summary(interp, args, kwargs):
     """callee contract of choosewavevector used by sq.__init__: requires ndim in {2,3}; returns an integer array (Mq, ndim)
-    (its content is specified by the ChooseWaveVector units); the call arguments are recorded for the caller's clause"""
+    (its content is specified by the ChooseWaveVectorSym unit); the call arguments are recorded for the caller's clause"""
     from pyvc.state import cur
     names = ["ndim", "numofq", "onlypositive"]
     a = dict(zip(names, args))
@@ -706,115 +899,568 @@ def cwv_spec(ndim, numofq, onlypositive):
     return sorted(out)
 
 
-class ChooseWaveVector(Unit):
-    """BOUNDED stand-in (concrete numofq, the real AST executed by the engine with every loop unrolled): the returned rows are exactly
-    cwv_spec.  The unbounded proof needs a written invariant for the compaction loop (ghost rank arrays) and is not done."""
-    module = WV
-    qualname = "choosewavevector"
-    prop = "C04"
-    SIZES = {2: (0, 1, 2, 3, 5, 8, 12), 3: (0, 1, 3, 4, 6)}
-    OPTS = {2: (False, True, "x", "y"), 3: (False, True, "x", "y", "z")}
-
-    def cases(self):
-        return [f"bounded/d={d}/numofq={n}/onlypositive={o}" for d in (2, 3) for n in self.SIZES[d] for o in self.OPTS[d]]
-
-    @staticmethod
-    def parse(case):
-        p = dict(x.split("=") for x in case.split("/")[1:])
-        o = p["onlypositive"]
-        return int(p["d"]), int(p["numofq"]), (True if o == "True" else False if o == "False" else o)
-
-    def setup(self, ctx, case):
-        d, n, o = self.parse(case)
-        return [d, n, o], {}, {"d": d, "n": n, "o": o}
-
-    def clause_names(self, case):
-        return ["rows=documented-set"]
-
-    def ensures(self, ctx, case, inp, out):
-        r = out.value
-        d = inp["d"]
-        want = cwv_spec(d, inp["n"], inp["o"])
-        ok = isinstance(r, A.Arr) and r.ndim == 2 and sv.is_conc(r.shape[0]) and int(r.shape[0]) == len(want) and A.dim_eq_syntactic(r.shape[1], d) \
-            and r.dtype == "int"
-        if ok:
-            rows = []
-            for t in range(len(want)):
-                row = tuple(r.get((t, c)) for c in range(d))
-                if not all(sv.is_conc(x) for x in row):
-                    ok = False
-                    break
-                rows.append(tuple(int(x) for x in row))
-            ok = ok and sorted(rows) == want
-        yield "rows=documented-set", bool(ok)
-
-    def replay(self, case, clause, model, seed):
-        return _replay_cwv()
+def cwv_spec_fast(np, ndim, numofq, onlypositive):
+    """cwv_spec for large numofq with numpy integer arithmetic (same definition: exact integer square test), rows in lexicographic order"""
+    nh = int(numofq / 2)
+    ax = np.arange(-nh, nh, dtype=np.int64)
+    grids = np.meshgrid(*([ax] * ndim), indexing="ij")
+    v = np.stack([g.ravel() for g in grids], axis=1)                 # C order of "ij" grids = lexicographic order
+    k = (v * v).sum(axis=1)
+    r = np.floor(np.sqrt(k.astype(np.float64))).astype(np.int64)
+    sq = ((r * r == k) | ((r + 1) * (r + 1) == k) | ((r - 1) * (r - 1) == k)) & (k > 0)
+    if onlypositive is True:
+        sq &= (v >= 0).all(axis=1)
+    if isinstance(onlypositive, str):
+        a = "xyz".index(onlypositive)
+        others = [c for c in range(ndim) if c != a]
+        sq &= (v[:, a] > 0) & (v[:, others] == 0).all(axis=1)
+    return [tuple(int(x) for x in row) for row in v[sq]]
 
 
-def _replay_cwv():
+CWV_OPTS = {2: (False, True, "x", "y"), 3: (False, True, "x", "y", "z")}
+
+
+def _replay_cwv(model=None, seed=0):
+    """real choosewavevector against the documented set (independent implementation): the returned array must be a 2-D integer array whose
+    rows are EXACTLY the list cwv_spec(...) - same vectors, same (lexicographic) order, no duplicates.  Inputs: the solver model's numofq
+    first, every numofq <= 14 (2-D) / <= 10 (3-D), seeded larger ones, and one 2-D case large enough for a tolerance in the integer-norm
+    test to matter (numofq = 1004: |(501, 1)| = 501.000998)."""
     import importlib
+    import random
 
     import numpy as np
     W = importlib.import_module(WV)
-    n_checked = 0
+    rng = random.Random(seed)
+    todo = []
+    try:
+        mq = int((model or {}).get("numofq"))
+        if 0 <= mq <= 60:
+            todo += [(d, mq, o, True) for d in (2, 3) for o in CWV_OPTS[d] if d == 2 or mq <= 24]
+    except (TypeError, ValueError):
+        pass
     for d in (2, 3):
-        for n in range(0, 15 if d == 2 else 11):
-            for o in ChooseWaveVector.OPTS[d]:
-                try:
-                    got = W.choosewavevector(d, n, o)
-                except Exception as e:
-                    return {"ran": True, "failed": True, "inputs": {"ndim": d, "numofq": n, "onlypositive": o}, "detail": f"raises {type(e).__name__}: {e}"}
-                want = cwv_spec(d, n, o)
-                n_checked += 1
-                rows = sorted(tuple(int(x) for x in r) for r in np.asarray(got).reshape(-1, d))
-                if rows != want:
-                    extra = [r for r in rows if r not in want][:3]
-                    missing = [r for r in want if r not in rows][:3]
-                    return {"ran": True, "failed": True, "inputs": {"ndim": d, "numofq": n, "onlypositive": o},
-                            "detail": f"{len(rows)} rows, expected {len(want)}; not in the documented set: {extra}; missing: {missing}"}
+        todo += [(d, n, o, False) for n in range(0, 15 if d == 2 else 11) for o in CWV_OPTS[d]]
+        todo += [(d, rng.randint(15, 60) if d == 2 else rng.randint(11, 20), rng.choice(CWV_OPTS[d]), False) for _ in range(4)]
+    todo.append((2, 1004, False, False))
+    n_checked = 0
+    for d, n, o, from_model in todo:
+        inputs = {"ndim": d, "numofq": n, "onlypositive": o}
+        try:
+            got = W.choosewavevector(d, n, o)
+        except Exception as e:
+            return {"ran": True, "failed": True, "inputs": inputs, "from_model": from_model, "detail": f"raises {type(e).__name__}: {e}"}
+        want = cwv_spec(d, n, o) if n <= 40 else cwv_spec_fast(np, d, n, o)
+        n_checked += 1
+        got = np.asarray(got)
+        if got.ndim != 2 or got.shape[1] != d or not np.issubdtype(got.dtype, np.integer):
+            return {"ran": True, "failed": True, "inputs": inputs, "from_model": from_model,
+                    "detail": f"result has shape {got.shape} and dtype {got.dtype}, expected an integer array (M, {d})"}
+        rows = [tuple(int(x) for x in r) for r in got]
+        if rows != want:
+            sw = set(want)
+            extra = [r for r in rows if r not in sw][:3]
+            missing = [r for r in want if r not in set(rows)][:3]
+            dup = len(rows) != len(set(rows))
+            first = next((k for k, (a, b2) in enumerate(zip(rows, want)) if a != b2), min(len(rows), len(want)))
+            return {"ran": True, "failed": True, "inputs": inputs, "from_model": from_model, "searched": n_checked,
+                    "detail": f"{len(rows)} rows, expected {len(want)}; not in the documented set: {extra}; missing: {missing}; duplicates: {dup}; "
+                              f"first difference at row {first}: got {rows[first] if first < len(rows) else None}, expected "
+                              f"{want[first] if first < len(want) else None} (rows must be in the lexicographic order of the loops)"}
     return {"ran": True, "failed": False, "searched": n_checked}
 
 
-UNITS = [Method(K) for K in (5, 4, 3, 2, 1)] + [Dispatch(), SqInit()]
-BOUNDED_UNITS = [ChooseWaveVector()]
+# ---- choosewavevector for symbolic numofq ---------------------------------------------------------------------------
 
 
-def _bounded_task(case):
-    import os
-
-    from pyvc import interp, vc
-    interp.REPO = os.environ.get("PYVC_REPO", "/repo")
-    r = vc.run_unit(BOUNDED_UNITS[0], case, "quick")
-    bad = [o for o in r["obligations"] if o["status"] != "PROVED"]
-    return {"case": case, "error": r.get("error"), "failed": [o["name"] for o in bad], "n": len(r["obligations"])}
+def _lex_lt(p, q):
+    """p < q in lexicographic order (tuples of integer values)"""
+    out = False
+    for c in reversed(range(len(p))):
+        out = sv.or_(sv.cmp("<", p[c], q[c]), sv.and_(sv.cmp("==", p[c], q[c]), out))
+    return out
 
 
-def extra_checks(tier, seed, repo):
-    """bounded stand-in for choosewavevector (reported under `bounded`, never counted as proved; a failing bounded case is reported
-    as a failing obligation so that a broken default wave-vector set is a VIOLATION) + lemmas on fresh symbols"""
-    import multiprocessing as mp
-    import os
-    from pyvc.vc import prove_lemmas
-    cases = BOUNDED_UNITS[0].cases()
-    jobs = max(1, min(int(os.environ.get("PYVC_JOBS", "16")), len(cases)))
-    with mp.get_context("fork").Pool(jobs) as pool:
-        res = pool.map(_bounded_task, cases, chunksize=4)
-    bounded, obligations = [], []
-    for r in res:
-        ok = not r["error"] and not r["failed"]
-        bounded.append({"unit": f"choosewavevector[{r['case']}]", "sizes": r["case"], "verdict": "holds" if ok else "FAILS",
-                        "detail": r["error"] or r["failed"]})
+class LexEnum:
+    """Ghost objects of the specification.  Box B = [-h, h)^d, documented set  D = {p in B : p.p is a perfect square}  (it contains 0).
+
+      V(p)          p.p is a perfect square                                       (PSQ of pyvc/libext/C04.py, uninterpreted)
+      below(L, pre) number of members of D whose first L+1 coordinates are `pre`   (nested counting sums, closed form)
+      rank(p)       = sum_{L<d} sum_{t=-h}^{p_L-1} below(L, (p_0..p_{L-1}, t))      the number of members of D that precede p in
+                    lexicographic order; defined for every p of [-h, h]^d (a coordinate h = one past the end of its axis)
+      CNT           = rank(h, -h, .., -h) = |D|
+      S(r, c)       coordinate c of the r-th member of D in lexicographic order, 0 <= r < CNT
+
+    rank and CNT are closed forms (Sigma-terms, nothing assumed).  S is the increasing enumeration of the finite set D; its defining
+    facts are the ones of the engine's boolean-mask selection (pyvc/relops.py: SEL/RANK) stated for d-dimensional positions:
+      (a) 0 <= r < CNT           ->  S(r) in B, V(S(r)), RK(S(r)) = r
+      (b) p in B, V(p)           ->  0 <= RK(p) < CNT, S(RK(p)) = p
+      (c) 0 <= r < r' < CNT      ->  S(r) <lex S(r')
+    with RK(p) = rank(p) (RK is the same closed form under a function symbol, so that the facts are instantiated per application).
+    (a)-(c) are theorems about finite sets; they are DERIVED from the closed form `rank` by the lemma obligations of `cwv_enum_lemmas`
+    (partial sums non-negative and monotone, rank monotone and strict at members, every rank below CNT attained: base / step obligations
+    per axis, then (a), (b), (c) by pure logic with S := the witness function of the existence lemma).  What remains trusted is the
+    induction principle over one axis coordinate and the choice of a witness function.  CNT <= numofq^d: `cwv_lemmas`."""
+
+    def __init__(self, d, h):
+        self.d, self.h = d, h
+        I = z3.IntSort()
+        self.RK = z3.Function(f"LEXRANK{d}", *([I] * d), I)
+        self.SF = z3.Function(f"LEXSEL{d}", I, I, I)
+        self.lo = sv.neg(h)
+        # every closed form and fact is built ONCE over placeholder constants and instantiated by substitution (the Sigma-terms are
+        # applications whose parameters are explicit arguments), so that the same sum is always the same term
+        self._P = [z3.Int(f"lex!p{c}") for c in range(d)]
+        self._R = [z3.Int("lex!r"), z3.Int("lex!r2")]
+        P = [sv.SV(x) for x in self._P]
+        self._partial_t = [sv.znum(self._partial_raw(P[:L], P[L])) for L in range(d)]
+        self.CNT = self.partial([], h)
+        self._fact_rank_t = self._fact_rank_raw(P)
+        self._fact_sel_t = self._fact_sel_raw(sv.SV(self._R[0]))
+        self._fact_inc_t = self._fact_increasing_raw(sv.SV(self._R[0]), sv.SV(self._R[1]))
+
+    @staticmethod
+    def _inst(template, consts, values):
+        return z3.substitute(template, *[(c, sv.znum(v.t if isinstance(v, sv.SV) else v)) for c, v in zip(consts, values)])
+
+    def valid(self, p):
+        from pyvc.libext.C04 import is_perfect_square
+        return is_perfect_square(_sum([sv.mul(x, x) for x in p]))
+
+    def in_box(self, p):
+        return sv.and_(*[sv.and_(sv.cmp(">=", x, self.lo), sv.cmp("<", x, self.h)) for x in p])
+
+    def _below_raw(self, pre):
+        if len(pre) == self.d:
+            return sv.ite(self.valid(pre), 1, 0)
+        return Sum(self.lo, self.h, lambda t: self._below_raw(list(pre) + [t]))
+
+    def _partial_raw(self, pre, j):
+        return Sum(self.lo, j, lambda t: self._below_raw(list(pre) + [t]))
+
+    def partial(self, pre, j):
+        """sum_{t=-h}^{j-1} below(pre + [t])"""
+        L = len(pre)
+        return sv.wrap(self._inst(self._partial_t[L], self._P[:L + 1], list(pre) + [j]))
+
+    def below(self, pre):
+        """number of members of D whose leading coordinates are `pre`"""
+        if len(pre) == self.d:
+            return sv.ite(self.valid(pre), 1, 0)
+        return self.partial(pre, self.h)
+
+    def rank_closed(self, p):
+        return _sum([self.partial(list(p[:L]), p[L]) for L in range(self.d)])
+
+    def rank(self, p):
+        return sv.SV(self.RK(*[sv.znum(x) for x in p]))
+
+    def S(self, r, c):
+        return sv.SV(self.SF(sv.znum(r), sv.znum(c)))
+
+    def row(self, r):
+        return [self.S(r, c) for c in range(self.d)]
+
+    # facts (z3 terms), for explicit instantiation and for per-application instantiation (ctx.array_fact)
+    def _fact_rank_raw(self, p):
+        rk = self.rank(p)
+        b = sv.implies(sv.and_(self.in_box(p), self.valid(p)),
+                       sv.and_(sv.cmp(">=", rk, 0), sv.cmp("<", rk, self.CNT), *[sv.cmp("==", self.S(rk, c), p[c]) for c in range(self.d)]))
+        return sv.zb(sv.and_(sv.cmp("==", rk, self.rank_closed(p)), b))
+
+    def _fact_sel_raw(self, r):
+        row = self.row(r)
+        return sv.zb(sv.implies(sv.and_(sv.cmp(">=", r, 0), sv.cmp("<", r, self.CNT)),
+                                sv.and_(self.in_box(row), self.valid(row), sv.cmp("==", self.rank(row), r))))
+
+    def _fact_increasing_raw(self, r, r2):
+        return sv.zb(sv.implies(sv.and_(sv.cmp(">=", r, 0), sv.cmp("<", r, r2), sv.cmp("<", r2, self.CNT)), _lex_lt(self.row(r), self.row(r2))))
+
+    def fact_rank(self, p):
+        return self._inst(self._fact_rank_t, self._P, list(p))
+
+    def fact_sel(self, r):
+        return self._inst(self._fact_sel_t, self._R[:1], [r])
+
+    def fact_increasing(self, r, r2):
+        return self._inst(self._fact_inc_t, self._R, [r, r2])
+
+    def register(self, ctx):
+        ctx.array_fact(self.RK.name(), lambda *p: self.fact_rank(list(p)))
+        ctx.array_fact(self.SF.name(), lambda r, c: self.fact_sel(r))
+
+
+def _cwv_nest(s):
+    """the chain of `for` statements of choosewavevector's real AST that encloses the loop statement s (outermost first, s last), the
+    array and the counter of the compaction store `A[counter] = [...]` in the innermost body (found syntactically)"""
+    import ast
+
+    from pyvc.interp import load_module
+    fn = load_module(WV).defs["choosewavevector"]
+    chain = None
+
+    def walk(node, anc):
+        nonlocal chain
+        for ch in ast.iter_child_nodes(node):
+            if ch is s:
+                chain = anc + [ch]
+                return
+            walk(ch, anc + [ch] if isinstance(ch, ast.For) else anc)
+    walk(fn, [])
+    if chain is None:
+        return None
+    inner = s
+    depth = len(chain)
+    while True:
+        nxt = [b for b in inner.body if isinstance(b, ast.For)]
+        if len(nxt) != 1:
+            break
+        inner = nxt[0]
+        depth += 1
+    store = None
+    for n in ast.walk(inner):
+        if isinstance(n, ast.Assign) and len(n.targets) == 1 and isinstance(n.targets[0], ast.Subscript) \
+                and isinstance(n.targets[0].value, ast.Name) and isinstance(n.targets[0].slice, ast.Name):
+            store = (n.targets[0].value.id, n.targets[0].slice.id)
+    return chain, depth, store
+
+
+class ChooseWaveVectorSym(Unit):
+    """choosewavevector(ndim, numofq, onlypositive) for SYMBOLIC numofq >= 0, d in {2,3}, onlypositive in {False, True, 'x','y'(,'z')}.
+
+    Statement (property text + docstring): the returned rows are exactly - each once, in the lexicographic order of the loops - the
+    vectors n of [-h, h)^d, h = numofq // 2, with n != 0, n.n a perfect square, all components >= 0 (onlypositive=True) resp.
+    positive along the chosen axis and zero along the others ('x','y','z').
+
+    Written loop invariant (LexEnum; init/step obligations are generated from executions of the REAL loop bodies): with the loop
+    variables of the enclosing loops at v and the loop's own variable at k,
+        index = rank(v.., k, -h, .., -h),     qvectors[r] = S(r) for r < index,   = 0 for index <= r < numofq^d.
+    Clauses on the returned array R of length M (t, u arbitrary row indices, n an arbitrary integer vector):
+      soundness     0 <= t < M  ->  R[t] in the final set
+      completeness  n in the final set  ->  R[w] = n for a row w, 0 <= w < M (w = the composed ranks)
+      order         0 <= t < u < M  ->  R[t] <lex R[u]      (hence no duplicates)."""
+    module = WV
+    qualname = "choosewavevector"
+    prop = "C04"
+    timeout = 30
+    solver_opts = {"ext": False}       # the proofs need Sigma unfold / empty-range instances only (fewer instances: only weaker for proving)
+    OPTS = CWV_OPTS
+
+    def cases(self):
+        return [f"d={d}/numofq=symbolic/onlypositive={o}" for d in (2, 3) for o in self.OPTS[d]]
+
+    @staticmethod
+    def parse(case):
+        p = dict(x.split("=") for x in case.split("/"))
+        o = p["onlypositive"]
+        return int(p["d"]), (True if o == "True" else False if o == "False" else o)
+
+    def setup(self, ctx, case):
+        d, o = self.parse(case)
+        n = ctx.int("numofq")
+        ctx.assume(n >= 0)
+        h = sv.floordiv(n, 2)
+        E = LexEnum(d, h)
+        E.register(ctx)
+        ctx.interp.loop_hints[(f"{WV}.choosewavevector", "for", "*")] = lambda *a: self._loop_rule(E, n, *a)
+        inp = dict(d=d, o=o, n=n, h=h, E=E, t=ctx.int("t"), u=ctx.int("u"), nv=[ctx.int(f"n_{c}") for c in range(d)])
+        return [d, n, o], {}, inp
+
+    # ---- written loop invariant
+    def _loop_rule(self, E, n, interp, s, frame, st, lo, hi, item_fn):
+        from pyvc.loops import written_summary
+        from pyvc.state import cur
+        from pyvc.sv import EngineError
+        info = _cwv_nest(s)
+        if info is None:
+            return NotImplemented
+        chain, depth, store = info
+        d = E.d
+        if depth != d or store is None:
+            raise EngineError("choosewavevector: the loop nest is not a nest of depth ndim around a compaction store `A[counter] = [...]`")
+        aname, cname = store
+        arr, idx0 = frame.env.get(aname), frame.env.get(cname)
+        if not isinstance(arr, A.Arr) or arr.view is not None or idx0 is None:
+            raise EngineError(f"choosewavevector: `{aname}` / `{cname}` are not a local array and its fill counter")
+        L = len(chain) - 1
+        import ast
+        outer = []
+        for f in chain[:-1]:
+            if not isinstance(f.target, ast.Name) or f.target.id not in frame.env:
+                raise EngineError("choosewavevector: loop target is not a plain name")
+            outer.append(frame.env[f.target.id])
+        # the range must not be reversed (the summary's post-state is state(hi)); proved from numofq >= 0
+        cur().require(sv.cmp(">=", hi, lo), "loop:range-not-reversed")
+
+        def pos(k):
+            return list(outer) + [k] + [E.lo] * (d - 1 - L)
+
+        def index_at(k):
+            return E.rank(pos(k))
+
+        def content_at(k):
+            ik = index_at(k)
+
+            def fn(idx):
+                r, c = idx
+                return sv.ite(sv.cmp("<", r, ik), lambda: E.S(r, c), 0)
+            return fn
+
+        def assume_at(k):
+            k1 = A.simp(sv.add(k, 1))
+            facts = [E.fact_rank(pos(k)), E.fact_rank(pos(k1))]
+            if L < d - 1:
+                facts.append(E.fact_rank(list(outer) + [k, E.h] + [E.lo] * (d - 2 - L)))
+            facts.append(self._count_bound(E, n))
+            return facts
+        lbl = f"loop-level-{L}"
+        mark = len(st.side)
+        r = written_summary(interp, s, frame, st, lo, hi, item_fn, {arr.sid: content_at}, env_at={cname: index_at}, label=lbl,
+                            assume_at=assume_at)
+        for sg in st.side[mark:]:
+            if getattr(sg, "explicit", False) and str(sg.kind).startswith(lbl) and not getattr(sg, "clause", None):
+                sg.clause = self.INVARIANT
+        return r
+
+    @staticmethod
+    def _count_bound(E, n):
+        """|D| <= numofq^d: instance of the induction lemmas `cwv:count-bound:*` (extra_checks)"""
+        return sv.zb(sv.cmp("<=", E.CNT, sv.power(n, E.d)))
+
+    INVARIANT = "loop-invariant:index=rank(position);rows-below-index=lexicographic-enumeration;rows-from-index-on=0"
+
+    def clause_names(self, case):
+        return [self.INVARIANT, "result:2-D-int-array", "soundness:every-row-is-a-vector-of-the-documented-set", "completeness:every-vector-of-the-documented-set-is-a-row",
+                "order:rows-strictly-increasing-in-loop-order(no-duplicates)"]
+
+    @staticmethod
+    def final_set(E, o, p):
+        """membership of the integer vector p in the documented default set for the option o"""
+        conds = [E.in_box(p), E.valid(p), sv.or_(*[sv.cmp("!=", x, 0) for x in p])]
+        if o is True:
+            conds += [sv.cmp(">=", x, 0) for x in p]
+        elif isinstance(o, str):
+            ax = "xyz".index(o)
+            conds += [sv.cmp(">", x, 0) if c == ax else sv.cmp("==", x, 0) for c, x in enumerate(p)]
+        return sv.and_(*conds)
+
+    def ensures(self, ctx, case, inp, out):
+        from pyvc import relops
+        names = self.clause_names(case)
+        d, o, n, E, t, u, nv = inp["d"], inp["o"], inp["n"], inp["E"], inp["t"], inp["u"], inp["nv"]
+        R = out.value
+        if isinstance(R, A.Masked):
+            R = relops.masked_to_arr(R)          # assumed contract of a[mask]: rows of the selected positions in increasing order (SEL/RANK)
+        ok = isinstance(R, A.Arr) and R.ndim == 2 and A.dim_eq_syntactic(R.shape[1], d) and R.dtype == "int"
+        yield names[1], bool(ok)
         if not ok:
-            obligations.append({"name": f"choosewavevector[{r['case']}]:rows=documented-set(bounded)", "status": "UNDECIDED" if r["error"] else "REFUTED",
-                                "ms": 0, "backends": ["engine-bounded"], "queries": 1, "replayable": True,
-                                "failed": [{"status": "REFUTED", "reason": str(r["error"] or r["failed"]), "backend": "engine-bounded", "ms": 0}]})
-    return {"obligations": obligations + prove_lemmas("C04", lemmas()), "bounded": bounded}
+            for nm in names[2:]:
+                yield nm, False
+            return
+        M = R.shape[0]
+        # the boolean-mask selections the code applied after the loops, innermost (applied first) to outermost
+        layers, seen = [], set()
+        for q in out.state.qfacts:
+            if q[0] == "select-increasing":
+                key = q[2](0).t.decl().name()
+                if key not in seen:
+                    seen.add(key)
+                    layers.append(q[1:])
+        row_t, row_u = [R.get((t, c)) for c in range(d)], [R.get((u, c)) for c in range(d)]
+        int_t = sv.and_(sv.cmp(">=", t, 0), sv.cmp("<", t, M))
+        bound = self._count_bound(E, n)
+        top = E.fact_rank([E.h] + [E.lo] * (d - 1))
+        yield names[2], sv.implies(int_t, self.final_set(E, o, row_t)), {"assume": [bound, top]}
+        # completeness: the row that holds n is found through the ranks: w = RANK_last(.. RANK_1(rank(n)))
+        w = E.rank(nv)
+        for cnt, SEL, RANK in layers:
+            w = RANK(w)
+        row_w = [R.get((w, c)) for c in range(d)]
+        yield names[3], sv.implies(self.final_set(E, o, nv), sv.and_(sv.cmp(">=", w, 0), sv.cmp("<", w, M), *[sv.cmp("==", row_w[c], nv[c]) for c in range(d)])), \
+            {"assume": [bound, top, E.fact_rank(nv)]}
+        # order: every selection keeps the order of the rows (assumed: SEL increasing), the enumeration S is increasing (fact (c))
+        mono, a, b = [], t, u
+        for cnt, SEL, RANK in reversed(layers):
+            mono.append(sv.zb(sv.implies(sv.and_(sv.cmp(">=", a, 0), sv.cmp("<", a, b), sv.cmp("<", b, cnt)), sv.cmp("<", SEL(a), SEL(b)))))
+            a, b = SEL(a), SEL(b)
+        mono.append(E.fact_increasing(a, b))
+        yield names[4], sv.implies(sv.and_(int_t, sv.cmp("<", t, u), sv.cmp("<", u, M)), _lex_lt(row_t, row_u)), {"assume": [bound, top] + mono}
+
+    def replay(self, case, clause, model, seed):
+        return _replay_cwv(model, seed)
+
+
+def cwv_lemmas():
+    """|D| <= numofq^d (the compaction store never leaves the buffer) by induction over each axis, innermost first: with
+    P_L(pre, j) = sum_{t=-h}^{j-1} below(pre, t) and W = 2h,   0 <= P_L(pre, j) <= (j + h) W^(d-1-L)   for -h <= j <= h.
+    Every level has a base and a step obligation (the step of level L uses the claim of level L+1 at j = h, i.e.
+    below(pre, j) <= W^(d-1-L)); the induction principle over j is trusted.  Last: CNT = P_0((), h) <= W^d <= numofq^d."""
+    out = []
+    for d in (2, 3):
+        n = sv.integer("numofq")
+        h = sv.floordiv(n, 2)
+        E = LexEnum(d, h)
+        pre_ok = sv.cmp(">=", n, 0)
+        c = [1]
+        for m in range(1, d + 1):
+            c.append(sv.mul(2, sv.mul(h, c[m - 1])))
+
+        def claim(L, pre, x):
+            m = d - 1 - L
+            P = E.partial(pre, x)
+            return sv.and_(sv.cmp(">=", P, 0), sv.cmp("<=", P, sv.add(sv.mul(x, c[m]), sv.mul(h, c[m]))))
+        for L in range(d - 1, -1, -1):
+            pre = [sv.integer(f"a_{q}") for q in range(L)]
+            j = sv.integer("j")
+            out.append((f"cwv:count-bound:d={d}:axis-{L}:base", sv.implies(pre_ok, claim(L, pre, E.lo))))
+            hyp = [pre_ok, sv.cmp(">=", j, E.lo), sv.cmp("<", j, h), claim(L, pre, j)]
+            if L < d - 1:
+                hyp.append(claim(L + 1, pre + [j], h))
+            out.append((f"cwv:count-bound:d={d}:axis-{L}:step", sv.implies(sv.and_(*hyp), claim(L, pre, sv.add(j, 1)))))
+        out.append((f"cwv:count-bound:d={d}:|D|<=numofq^d", sv.implies(sv.and_(pre_ok, claim(0, [], h)), sv.SV(ChooseWaveVectorSym._count_bound(E, n)))))
+    return out
+
+
+def cwv_enum_lemmas():
+    """The facts (a), (b), (c) of LexEnum derived from the closed form `rank` by explicit induction obligations (induction over one
+    axis coordinate at a time; the induction principle and the choice of a witness function are what remains trusted):
+
+      NN_L    0 <= P_L(pre, j)                           (-h <= j <= h)           base / step over j
+      MONO_L  P_L(pre, j) <= P_L(pre, j2)                (-h <= j <= j2 <= h)     step over j2 (base j2 = j trivial)
+      T_L     R_L(p) + [V(p)] <= below(p[:L])            (p in B)   R_L(p) = sum_{L'>=L} P_L'(p[:L'], p_L'): the rank of p inside the
+              sub-box of its prefix plus one if p is a member does not exceed the number of members of the sub-box  (T_0: rank(p) + [V(p)] <= CNT)
+      M_L0    p[:L0] = q[:L0], p_L0 < q_L0  ->  rank(p) + [V(p)] <= rank(q)       (p, q in B)   monotonicity of rank, strict at members
+      EX_L    base_L(pre) <= r < base_L(pre) + P_L(pre, j)  ->  a member p of D with prefix pre, p_L < j, rank(p) = r exists
+              (witness function W_L(pre, j, r)); base / step over j, the step of level L uses EX_{L+1}(pre + [j], h)
+      (a)     = EX_0((), h) with S(r) := W_0(h, r);   (b), (c): from (a), T_0, NN and M by pure logic (one obligation each)."""
+    out = []
+    for d in (2, 3):
+        n = sv.integer("numofq")
+        h = sv.floordiv(n, 2)
+        E = LexEnum(d, h)
+        lo = E.lo
+        pre_ok = sv.cmp(">=", n, 0)
+        tag = f"cwv:enum:d={d}"
+
+        def inax(x):
+            return sv.and_(sv.cmp(">=", x, lo), sv.cmp("<", x, h))
+
+        def ind(p):
+            return sv.ite(E.valid(p), 1, 0)
+
+        def R(L, p):
+            return _sum([E.partial(list(p[:q]), p[q]) for q in range(L, d)])
+
+        def nn(pre, x):
+            """NN at (pre, x): conclusion of the induction"""
+            return sv.implies(sv.and_(sv.cmp(">=", x, lo), sv.cmp("<=", x, h)), sv.cmp(">=", E.partial(pre, x), 0))
+
+        def mono(pre, x, y):
+            return sv.implies(sv.and_(sv.cmp(">=", x, lo), sv.cmp("<=", x, y), sv.cmp("<=", y, h)), sv.cmp("<=", E.partial(pre, x), E.partial(pre, y)))
+
+        def below_nonneg(pre_j):
+            """below(pre + [j]) >= 0: by its form (an indicator) on the last axis, else NN_{L+1} at the full axis"""
+            return True if len(pre_j) == d else nn(pre_j, h)
+        # ---- NN, MONO
+        for L in range(d - 1, -1, -1):
+            pre = [sv.integer(f"a_{q}") for q in range(L)]
+            j, j2 = sv.integer("j"), sv.integer("j2")
+            out.append((f"{tag}:partial-sums-nonnegative:axis-{L}:base", sv.implies(pre_ok, sv.cmp(">=", E.partial(pre, lo), 0))))
+            out.append((f"{tag}:partial-sums-nonnegative:axis-{L}:step",
+                        sv.implies(sv.and_(pre_ok, inax(j), sv.cmp(">=", E.partial(pre, j), 0), below_nonneg(pre + [j])),
+                                   sv.cmp(">=", E.partial(pre, sv.add(j, 1)), 0))))
+            out.append((f"{tag}:partial-sums-monotone:axis-{L}:step",
+                        sv.implies(sv.and_(pre_ok, sv.cmp(">=", j, lo), sv.cmp("<=", j, j2), sv.cmp("<", j2, h), sv.cmp("<=", E.partial(pre, j), E.partial(pre, j2)),
+                                           below_nonneg(pre + [j2])),
+                                   sv.cmp("<=", E.partial(pre, j), E.partial(pre, sv.add(j2, 1))))))
+        # ---- T_L
+        p = [sv.integer(f"p_{c}") for c in range(d)]
+        q = [sv.integer(f"q_{c}") for c in range(d)]
+        inB = lambda v: sv.and_(*[inax(x) for x in v])
+
+        def T(L, v):
+            return sv.cmp("<=", sv.add(R(L, v), ind(v)), E.below(list(v[:L])))
+        for L in range(d - 1, -1, -1):
+            hyp = [pre_ok, inB(p), mono(list(p[:L]), sv.add(p[L], 1), h)]
+            if L + 1 < d:
+                hyp.append(T(L + 1, p))
+            out.append((f"{tag}:rank-in-sub-box+member<=size-of-sub-box:level-{L}", sv.implies(sv.and_(*hyp), T(L, p))))
+        # ---- M_L0
+
+        def M(L0, u, v):
+            same = [sv.cmp("==", u[c], v[c]) for c in range(L0)]
+            return sv.implies(sv.and_(inB(u), inB(v), *same, sv.cmp("<", u[L0], v[L0])), sv.cmp("<=", sv.add(E.rank_closed(u), ind(u)), E.rank_closed(v)))
+        for L0 in range(d):
+            hyp = [pre_ok, mono(list(p[:L0]), sv.add(p[L0], 1), q[L0])]
+            if L0 + 1 < d:
+                hyp.append(sv.implies(inB(p), T(L0 + 1, p)))
+            hyp += [nn(list(q[:c]), q[c]) for c in range(L0 + 1, d)]
+            out.append((f"{tag}:rank-monotone(strict-at-members):first-difference-at-axis-{L0}", sv.implies(sv.and_(*hyp), M(L0, p, q))))
+        # ---- EX_L
+        I = z3.IntSort()
+        Wf = [z3.Function(f"LEXWIT{d}_{L}", *([I] * (L + 3)), I) for L in range(d)]      # (pre.., j, r, c)
+
+        def W(L, pre, j, r):
+            return [sv.SV(Wf[L](*[sv.znum(x) for x in list(pre) + [j, r, c]])) for c in range(d)]
+
+        def base(L, pre):
+            return _sum([E.partial(list(pre[:c]), pre[c]) for c in range(L)])
+
+        def interval(L, pre, j, r):
+            b = base(L, pre)
+            return sv.and_(sv.cmp("<=", b, r), sv.cmp("<", r, sv.add(b, E.partial(pre, j))))
+
+        def OK(L, pre, j, r, w):
+            return sv.and_(inB(w), E.valid(w), *[sv.cmp("==", w[c], pre[c]) for c in range(L)], sv.cmp("<", w[L], j), sv.cmp("==", E.rank_closed(w), r))
+
+        def EX(L, pre, j, r):
+            return sv.implies(interval(L, pre, j, r), OK(L, pre, j, r, W(L, pre, j, r)))
+        r = sv.integer("r")
+        for L in range(d - 1, -1, -1):
+            pre = [sv.integer(f"a_{c}") for c in range(L)]
+            j = sv.integer("j")
+            box_pre = sv.and_(*[inax(x) for x in pre]) if pre else True
+            out.append((f"{tag}:every-rank-is-attained:axis-{L}:base", sv.implies(sv.and_(pre_ok, box_pre), sv.not_(interval(L, pre, lo, r)))))
+            j1 = sv.add(j, 1)
+            old = interval(L, pre, j, r)
+            # ranks of the old interval: the witness of the induction hypothesis serves (its coordinate L is < j < j+1)
+            out.append((f"{tag}:every-rank-is-attained:axis-{L}:step(old-ranks)",
+                        sv.implies(sv.and_(pre_ok, box_pre, inax(j), EX(L, pre, j, r), old), OK(L, pre, j1, r, W(L, pre, j, r)))))
+            # new ranks: the member (pre, j) itself on the last axis, else the witness of the next level in the sub-box (pre, j)
+            hyp = [pre_ok, box_pre, inax(j), interval(L, pre, j1, r), sv.not_(old)]
+            if L == d - 1:
+                wnew = pre + [j]
+            else:
+                hyp.append(EX(L + 1, pre + [j], h, r))
+                wnew = W(L + 1, pre + [j], h, r)
+            out.append((f"{tag}:every-rank-is-attained:axis-{L}:step(new-ranks)", sv.implies(sv.and_(*hyp), OK(L, pre, j1, r, wnew))))
+        # ---- (a), (b), (c) for S(r) := W_0(h, r)
+        S = lambda x: W(0, [], h, x)
+        a_fact = lambda x, row: sv.implies(sv.and_(sv.cmp(">=", x, 0), sv.cmp("<", x, E.CNT)),
+                                           sv.and_(inB(row), E.valid(row), sv.cmp("==", E.rank_closed(row), x)))
+        out.append((f"{tag}:(a):S(r)-is-a-member-of-rank-r", sv.implies(sv.and_(pre_ok, EX(0, [], h, r)), a_fact(r, S(r)))))
+        Mgen = lambda u, v: sv.and_(*[M(L0, u, v) for L0 in range(d)])
+        rp = E.rank_closed(p)
+        nn_rank = sv.and_(*[nn(list(p[:c]), p[c]) for c in range(d)])
+        hyp_b = [pre_ok, inB(p), E.valid(p), T(0, p), nn_rank, a_fact(rp, q), Mgen(p, q), Mgen(q, p)]
+        out.append((f"{tag}:(b):S(rank(p))=p-and-rank(p)<|D|",
+                    sv.implies(sv.and_(*hyp_b), sv.and_(sv.cmp(">=", rp, 0), sv.cmp("<", rp, E.CNT), *[sv.cmp("==", q[c], p[c]) for c in range(d)]))))
+        r2 = sv.integer("r2")
+        hyp_c = [pre_ok, sv.cmp(">=", r, 0), sv.cmp("<", r, r2), sv.cmp("<", r2, E.CNT), a_fact(r, p), a_fact(r2, q), Mgen(q, p)]
+        out.append((f"{tag}:(c):S-strictly-increasing", sv.implies(sv.and_(*hyp_c), _lex_lt(p, q))))
+    return out
+
+
+UNITS = [Method(K) for K in (5, 4, 3, 2, 1)] + [Dispatch(), SqInit(), ChooseWaveVectorSym()]
+def extra_checks(tier, seed, repo):
+    """lemmas on fresh symbols: the algebra behind the sum rule / the sign of the diagonal terms, and the induction lemmas of the default
+    wave-vector set (|D| <= numofq^d).  No bounded stand-in is left: choosewavevector is under contract for symbolic numofq."""
+    from pyvc.vc import prove_lemmas
+    return {"obligations": prove_lemmas("C04", lemmas() + cwv_lemmas()) + prove_lemmas("C04", cwv_enum_lemmas(), opts={"ext": False}), "bounded": []}
 
 
 def replay_extra(rec):
-    if "choosewavevector" in rec.get("obligation", ""):
-        return _replay_cwv()
+    if "choosewavevector" in rec.get("obligation", "") or ":cwv:" in rec.get("obligation", ""):
+        return _replay_cwv(rec.get("model"), int(rec.get("seed") or 0))
     return {"ran": False, "failed": False, "error": "no replay for this obligation"}
 
 
@@ -827,6 +1473,11 @@ def lemmas():
     out.append(("lemma:sum-of-non-negative-terms:induction-step", sv.implies(sv.and_(S >= 0, f >= 0), sv.cmp(">=", sv.add(S, f), 0))))
     raw, T, Na = sv.real("raw"), sv.integer("T"), sv.integer("N_a")
     out.append(("lemma:raw>=0=>S_aa>=0", sv.implies(sv.and_(raw >= 0, T >= 1, Na >= 1), sv.cmp(">=", sv.mul(sv.div(raw, sv.mul(T, Na)), sv.mul(T, Na)), 0))))
+    cc, rr, vv, ee = sv.real("c"), sv.real("r"), sv.real("v"), sv.real("e")
+    absle = lambda x_, y_: sv.and_(sv.cmp("<=", x_, y_), sv.cmp("<=", sv.neg(y_), x_))
+    out.append(("lemma:scaled-rounding-error", sv.implies(sv.and_(cc >= 0, absle(sv.sub(rr, vv), ee)), absle(sv.sub(sv.mul(cc, rr), sv.mul(cc, vv)), sv.mul(cc, ee)))))
+    uu, bb, dd = sv.real("u"), sv.real("B"), sv.real("d")
+    out.append(("lemma:|u|<=B.d,d>=1=>|u/d|<=B", sv.implies(sv.and_(absle(uu, sv.mul(bb, dd)), dd >= 1), absle(sv.div(uu, dd), bb))))
     for K in (2, 3, 4, 5):
         t = sv.integer("type_i")
         e = sv.real("e_i")
@@ -857,14 +1508,26 @@ MANIFEST = {
             "columns exist exactly for a <= b <= K in the stated order; CSV = returned table; _qvectors.csv = integer vectors, |q| and the "
             "unrounded per-vector values; diagonal and total per-vector values are >= 0; sq.getresults dispatches on the species number "
             "(1..5, >5 -> total only); sq.__init__ establishes q = 2 pi n / L, |q|, df_qvector, N, T, species counts = #{i: type_i = id} "
-            "and calls choosewavevector(ndim, int(2 qrange / min(2 pi / L)), onlypositive) for the default set; lemmas: per-frame "
+            "and calls choosewavevector(ndim, int(2 qrange / min(2 pi / L)), onlypositive) for the default set; choosewavevector (real "
+            "AST, SYMBOLIC numofq >= 0, d in {2,3}, onlypositive in {False, True, 'x','y','z'}): the returned rows are exactly - each once, in the "
+            "lexicographic order of the loops - the vectors n of [-h,h)^d, h = numofq//2, with n != 0, n.n a perfect square, further all "
+            "components >= 0 (True) / positive along the axis and zero elsewhere ('x','y','z'): soundness, completeness, strict order on the "
+            "returned array; written loop invariant of the nested compaction loops (index = rank of the position = number of valid positions "
+            "before it, rows below index = the lexicographic enumeration, rows from index on = 0) with loop-init / loop-step obligations from "
+            "the real bodies; no store leaves the buffer (|D| <= numofq^d by induction lemmas per axis); lemmas: per-frame "
             "sum-rule identity |sum_a rho_a|^2 = sum_a |rho_a|^2 + 2 sum_{a<b} Re[rho_a conj rho_b] and the induction steps of "
-            "rho = sum_a rho_a and of 'sum of non-negative terms'.",
+            "rho = sum_a rho_a and of 'sum of non-negative terms'; on the real terms of every method: diagonal and total columns of the "
+            "RETURNED table are >= 0 (induction steps over frames and over the vectors of a group, mean of non-negative values), and the sum "
+            "rule N S = sum_a N_a S_aa + 2 sum_{a<b} sqrt(N_a N_b) S_ab holds exactly for the unrounded per-vector values (induction steps "
+            "over particles and frames, ring identities with the code's normalisations) and within (N + sum_{a<b} sqrt(N_a N_b)) 1e-6 on every "
+            "row of the returned (rounded, |q|-averaged) table (per-vector defect bound, induction step over the vectors of a group, linearity "
+            "of the group sums, mean of the combination).",
     "note": "floats as reals (A1); assumed: pandas frame/round/groupby-mean/to_csv contracts, np.unique (relational), np.linalg.norm, "
             "exp(-ix) = cos x - i sin x, math.modf(sqrt(k))[0] == 0 iff k is a perfect square; the methods take the invariant of "
-            "sq.__init__ as precondition with type ids 1..K; choosewavevector (default set = non-zero integer vectors of "
-            "[-floor(n/2), floor(n/2))^d with integer norm, onlypositive True/'x'/'y'/'z') is BOUNDED only: numofq in "
-            "{0,1,2,3,5,8,12} (d=2) and {0,1,3,4,6} (d=3), real AST executed by the engine, reported separately; the sum rule is "
-            "proved as lemmas on the spec terms, not chained to the rounded output; the raising behaviour of __init__ for varying "
+            "sq.__init__ as precondition with type ids 1..K; choosewavevector: documented range = half-open [-floor(n/2), floor(n/2)) per "
+            "axis; assumed: the ghost lexicographic enumeration of the documented set with rank = count of preceding members (d-dimensional "
+            "SEL/RANK), the a[mask] selection contract, modf/sqrt as the perfect-square test, induction over an axis for the count bound; "
+            "no bounded stand-in is left; the sum rule is exact for the unrounded per-vector values, on the rounded / averaged table it is "
+            "proved up to the stated rounding bound; induction principles and den >= 1 of groupby trusted; the raising behaviour of __init__ for varying "
             "particle number / box is not under contract",
 }
